@@ -79,8 +79,27 @@ impl Env {
         T::from_val(self, &r)
     }
 }
+impl Env {
+    /// failure of the callee is a symbolic choice and is returned, not trapped
+    pub fn try_invoke_contract<T: TryFromVal<Env, Val>, E>(&self, a: &Address, f: &crate::Symbol, args: crate::Vec<Val>) -> Result<Result<T, ConversionError>, Result<E, crate::InvokeError>> {
+        if crate::model::nondet_callee_failure() {
+            return Err(Err(crate::InvokeError::Abort));
+        }
+        let r = crate::model::invoke_raw(a, f, args);
+        Ok(T::try_from_val(self, &r).map_err(|_| ConversionError))
+    }
+}
 pub struct Ledger;
 impl Ledger {
+    pub fn max_live_until_ledger(&self) -> u32 {
+        unsafe { SEQ }.saturating_add(3_110_400)
+    }
+    pub fn protocol_version(&self) -> u32 {
+        22
+    }
+    pub fn network_id(&self) -> BytesN<32> {
+        BytesN([7u8; 32])
+    }
     pub fn timestamp(&self) -> u64 {
         unsafe { TS }
     }
